@@ -686,6 +686,43 @@ class Desugarer:
         self.report.append((t["callee"]["name"], c["key"], line))
         return ck
 
+    def then(self, c, blk):
+        """rewrite `dst = b.then(closure)` into `if b { dst = Some(closure()) } else { dst = None }`"""
+        t = blk["term"]
+        args = t["args"]
+        if len(args) != 2 or t["target"] is None:
+            return False
+        ck = self._closure_of(c, args[1])
+        cl = self.inl.by_key.get(ck) if ck else None
+        if cl is None or cl["arg_count"] != 1:
+            return False
+        line = t.get("line", 0)
+        L = len(c["locals"])
+        n_env, n_r = L, L + 1
+        c["locals"].extend([{"s": "{closure}"}, copy.deepcopy(cl["locals"][0])])
+        B = max(b["id"] for b in c["blocks"]) + 1
+        BS, BH, BM, BR = B, B + 1, B + 2, B + 3
+        dst, target = t["dst"], t["target"]
+        clocal = args[1]["place"]["l"]
+
+        def asg(d, rv):
+            return {"k": "assign", "dst": d, "rv": rv, "line": line, "inl": "comb"}
+        enum = "std::option::Option"
+        sw = {"id": BS, "stmts": [], "term": {"k": "switch", "discr": args[0], "discr_ty": "bool", "targets": [[0, BM, None]], "otherwise": BH, "line": line,
+                                               "comb": "then"}}
+        ccallee = {"key": ck, "local": True, "name": "call_once", "gargs": [], "inputs": [], "output": cl["locals"][0]["s"]}
+        bh = {"id": BH, "stmts": [asg(_pl(n_env), {"k": "use", "op": _mv(clocal)})],
+              "term": {"k": "call", "callee": ccallee, "args": [_mv(n_env)], "dst": _pl(n_r), "target": BR, "line": line}}
+        after = {"id": BR, "stmts": [asg(copy.deepcopy(dst), {"k": "aggregate", "agg": "adt", "adt": enum, "variant": "Some", "fields": ["0"], "ops": [_mv(n_r)]})],
+                 "term": {"k": "goto", "target": target, "line": line}}
+        bm = {"id": BM, "stmts": [asg(copy.deepcopy(dst), {"k": "aggregate", "agg": "adt", "adt": enum, "variant": "None", "fields": [], "ops": []})],
+              "term": {"k": "goto", "target": target, "line": line}}
+        c["blocks"].extend([sw, bh, after, bm])
+        blk["term"] = {"k": "goto", "target": BS, "line": line}
+        self.inl.splice(c, bh, cl)
+        self.report.append(("then", c["key"], line))
+        return ck
+
     def run(self):
         gone = set()
         progress = True
@@ -705,6 +742,11 @@ class Desugarer:
                             progress = True
                     elif t["k"] == "call" and t["callee"].get("key") in COMBINATORS:
                         ck = self.comb(c, blk)
+                        if ck:
+                            gone.add(ck)
+                            progress = True
+                    elif t["k"] == "call" and t["callee"].get("key") == "bool::then":
+                        ck = self.then(c, blk)
                         if ck:
                             gone.add(ck)
                             progress = True
